@@ -362,6 +362,7 @@ func gen(r *prng.R, f proto.Flags, emit func(proto.Case)) {
 			emit(proto.Case{ID: fmt.Sprintf("crowd%d-%d", mx, gcs), Ops: h.ops})
 		}
 	}
+	genStress(emit)
 	if f.Tier == "thorough" {
 		exhaustive(emit)
 	}
